@@ -38,7 +38,8 @@ type Ctx struct {
 	SelfTest     []selfTestResult
 
 	fnCache map[string]*Fn
-	declIdx map[*types.Func]*Fn // all function declarations of loaded repo packages
+	declIdx map[*types.Func]*Fn
+	descentMemo map[string]map[*types.Func]bool // all function declarations of loaded repo packages
 
 }
 
